@@ -39,6 +39,7 @@ def gen_callbacks(rng, nmsgs):
             "element": rng.choice([None, None, None, "E1", "E2", "EX"]),
             "etype": rng.choice(ETYPES),
             "async": rng.random() < 0.25,
+            "shape": rng.choice(["function", "function", "partial", "object", "method"]),   # any callable may be registered
             "raises": rng.random() < 0.2,
             "register_at": rng.choice([0, 0, 0, rng.randrange(0, max(1, nmsgs))]),
             "remove_at": None,
@@ -104,8 +105,26 @@ async def run_stream(ctx, case):
             async def fn(event):
                 body(event)
         else:
-            def fn(event):
-                body(event)
+            shape = cb.get("shape", "function")
+            if shape == "partial":
+                import functools
+
+                def target(tag, event):
+                    body(event)
+                fn = functools.partial(target, cb["id"])
+            elif shape == "object":
+                class Handler:
+                    def __call__(self, event):
+                        body(event)
+                fn = Handler()
+            elif shape == "method":
+                class Owner:
+                    def handle(self, event):
+                        body(event)
+                fn = Owner().handle
+            else:
+                def fn(event):
+                    body(event)
         return fn
 
     def register(cb):
@@ -134,7 +153,7 @@ async def run_stream(ctx, case):
                 nxt = ids[ids.index(cb["id"]) + 1]
                 client.rmonevent(uuid=uuids[nxt])
         elif cb["action"] == "register-new":
-            new = dict(cb, id=1000 + cb["id"], action=None, raises=False, **{"async": False})
+            new = dict(cb, id=1000 + cb["id"], action=None, raises=False, shape="function", **{"async": False})
             dyn.append(new)
             register(new)
 
